@@ -3369,3 +3369,43 @@ impl Manager {
             .swap(Arc::new((Instant::now(), report)));
     }
 }
+
+//------------ verification hooks (e2e) ---------------------------------------
+
+#[cfg(feature = "verif-hooks")]
+impl Manager {
+    /// Returns once every running unit has answered a `ReportLinks`
+    /// command sent through the gate agent the manager holds for it now:
+    /// the read-only command that `coordinate_and_track_startup` itself
+    /// sends after every spawn. A unit answers it in its main loop, that is
+    /// after it has left its start-up waitpoint (links connected) and after
+    /// it has handled every command queued before it - for a unit that was
+    /// sent `Reconfigure` the agent is the one of its new gate, which it
+    /// only listens to once the reconfiguration has been taken. A command
+    /// that arrives while a unit still sits in its start-up
+    /// `process_until` is consumed without an answer, so it is sent again
+    /// every few milliseconds. `false` if `max` went by first. Add-only;
+    /// changes nothing.
+    pub async fn verif_settle(&self, max: Duration) -> bool {
+        let t0 = Instant::now();
+        for (_name, (_unit_type, agent)) in &self.running_units {
+            loop {
+                let report = UpstreamLinkReport::new();
+                let _ = agent.report_links(report.clone()).await;
+                let sent = Instant::now();
+                while !report.ready()
+                    && sent.elapsed() < Duration::from_millis(5)
+                {
+                    tokio::time::sleep(Duration::from_micros(200)).await;
+                }
+                if report.ready() {
+                    break;
+                }
+                if t0.elapsed() > max {
+                    return false;
+                }
+            }
+        }
+        true
+    }
+}
